@@ -77,10 +77,15 @@ func (Prop) Describe(t vp.Tier) vp.Description {
 			"compiles is run through Thread.CallContext with a CPU and a memory limit under recover(). Refuting events: a Go panic other than the " +
 			"documented ContextTerminationError escaping the compile or call entry points; the child process dying (fatal error, Go stack exhaustion, " +
 			"panic on a coroutine goroutine, signal), attributed to the journalled case; for a limit template any outcome other than the closed-form " +
-			"value, a compile error, or (only for N >= 1e5) a quota kill. Stages: source = random bytes / random token strings / byte- and token-level " +
-			"mutations of /repo's *.lua files and a snippet corpus; limits = templates scaled through N in {10..2e5}; stdlib = every function reachable " +
-			"from _G, package.loaded, the string/file/context/resources metatables and returned functions x tuples from an edge pool (exhaustive for " +
-			"arity <= 2, sampled for 3-4); reentry = unbounded recursion through every metamethod and library callback. " +
+			"value, a compile error (N >= 200 only), or (only for N >= 1e5, or super-linear templates) a quota kill. Stages: source = random bytes / " +
+			"random token strings / byte-, token- and line-level mutations of /repo's *.lua files and a snippet corpus (2e4 quick, 1e6 thorough; a tenth " +
+			"of that under -race, and under -asan in the thorough tier); limits = 79 templates scaled through N in {10..2e5} (quick: N <= 300 for all, " +
+			"2^15+-1 for 22 templates, 2^16+-1 for 2; -race: N in {10,256,257} quick, N <= 300 plus 22 templates at 2^15+-1 thorough) plus a bisection of " +
+			"the largest N that compiles for 4 / 22 jump templates; stdlib = every function reachable from _G, package.loaded, the string/file/context/" +
+			"resources metatables and returned functions x tuples from an edge pool (exhaustive for arity <= 2 over the 36-value core pool in the quick " +
+			"tier and the 104-value pool in the thorough tier, 1e5 / 2e6 sampled tuples of arity 2-4; every 10th call under -race in the quick tier, all " +
+			"under -race and -asan in the thorough tier); reentry = 73 programs recursing without bound through every metamethod and library callback " +
+			"under 2 (quick) / 3 (thorough) limit sets. " +
 			"A case is non-trivial when it got past the parser (compiled, or was rejected by the compiler back end) or, for a library call, " +
 			"when it was not rejected by an argument check ('bad argument'/'must be'/'value needed' errors); distinct by hash of (stage, input).",
 		Assumptions: []string{
